@@ -647,6 +647,8 @@ structure GroLayout where
   velNames : List FName
   velTypes : List RTy
   dotFrom : Nat
+  /-- `has_vel = first_line[countFrom:].count('.') == 6` (0: the whole line, as before the repair of F-C16-4) -/
+  countFrom : Nat
 
 def groLine (G : GroLayout) (serial : Nat) (a : Atom) : List Char := render G.atomFmt (atomEnv serial a)
 
@@ -685,10 +687,11 @@ structure GroFormat where
   slices : List RSlice
   hasVel : Bool
 
-/-- the format detection on the first atom line.  `find` returning -1 is carried as python does
+/-- the format detection on the first atom line.  Velocities are assumed iff the part of the line
+from column `countFrom` on (after the four identifier fields) holds exactly six points.  `find` returning -1 is carried as python does
 (`-1 + 1 = 0`, differences of −1/positions); widths that come out ≤ 0 yield no slice. -/
 def groDetect (G : GroLayout) (first : List Char) : GroFormat :=
-  let hasVel := (first.filter (· = '.')).length = 6
+  let hasVel := ((first.drop G.countFrom).filter (· = '.')).length = 6
   let fd : Int := match findFrom first '.' G.dotFrom with | some i => i | none => -1
   let sd : Int := match findFrom first '.' (fd + 1).toNat with | some i => i | none => -1
   let prec : Int := sd - fd
